@@ -262,6 +262,19 @@ def _hist_subsearches():
                         'expected_files': {'bindings/shared.ts': exp}, 'agree': False, 'note': 'expected: notice, then each type\'s own chunk once, in name order'}, 'kind': 'history'}
     subs.append((('C04', 'C05', 'C13', 'C15'), docs))
 
+    def both_kept():
+        # a field doc that names another declaration of the same file (the region of known finding D7b: WHERE the declaration lands is
+        # not judged here): whatever the order, both declarations are in the file, each exactly once
+        for h in ([['export_all', 'ZB'], ['export_all', 'B']], [['export_all', 'B'], ['export_all', 'ZB']], [['export_all', 'A'], ['export_all', 'ZB'], ['export_all', 'B']]):
+            got = run_history(h)
+            txt = got.get('files', {}).get('bindings/shared.ts') or ''
+            n_zb, n_b = txt.count('export type ZB = '), txt.count('export type B = ')
+            if n_zb != 1 or n_b != 1 or any(r != 'ok' for r in got.get('results', [])):
+                return {'request': {'op': 'export_history', 'steps': h}, 'result': {'files': got.get('files'), 'results': got.get('results'), 'agree': False,
+                        'expected_files': None, 'note': f'`export type ZB = ` occurs {n_zb} time(s), `export type B = ` {n_b} time(s); each must occur exactly once'}, 'kind': 'history-count',
+                        'counts': {'export type ZB = ': 1, 'export type B = ': 1}, 'file': 'bindings/shared.ts'}
+    subs.append((('C04', 'C05', 'C15'), both_kept))
+
     def generic_siblings():
         # a generic declaration `Pair<T>` next to `Pair2`, `Pair3`: every export order gives the same bytes
         import itertools as _it
@@ -500,6 +513,12 @@ def rerun(rec):
         have = sorted(got.get('files', {}).keys())
         print('replayed history on the current tree, files written:', have, 'expected:', w['want'])
         return 1 if have != w['want'] else 0
+    if w.get('kind') == 'history-count':
+        got = run_history(w['request']['steps'])
+        txt = got.get('files', {}).get(w['file']) or ''
+        have = {k: txt.count(k) for k in w['counts']}
+        print('replayed history on the current tree, occurrences in', w['file'], ':', have, 'expected:', w['counts'])
+        return 1 if have != w['counts'] else 0
     if w.get('kind') == 'history-imports':
         got = run_history(w['request']['steps'])
         txt = got.get('files', {}).get(w['file']) or ''
